@@ -104,42 +104,52 @@ example : (encode Gen.schema Gen.m_ROAccessReport sampleReport).take 22 =
 
 /-! ## `paramHeader.sz` -/
 
-/-- the size `getHeader` computes for a parameter (16-bit additions of 16-bit sub-sizes) is the number of bytes
-`EncodeParams`/`EncodeFields` write for it, modulo 2^16 -/
+/-- **`paramHeader.sz` is the true length**: the size `getHeader` computes for a well-formed parameter (16-bit
+additions of 16-bit sub-sizes, every variable-length field sized in uint16) is exactly the number of bytes
+`EncodeParams`/`EncodeFields` write for it — so the TLV length field written from it is exact -/
+theorem implSize_exact (S : Schema) (hS : layoutWF S = true) (fuel : Nat) (ty : String) (v : Val)
+    (hv : fitsParam S fuel ty v = true) :
+    szParam S fuel ty v = (encParam S fuel ty v).length :=
+  (encParam_layout S hS fuel ty v hv).2
+
+/-- `getHeader`'s result always fits 16 bits (it is computed in uint16) … -/
+theorem implSize_lt (S : Schema) (fuel : Nat) (ty : String) (v : Val) : szParam S fuel ty v < 65536 := by
+  cases fuel with
+  | zero => simp [szParam]
+  | succ fuel =>
+    cases v with
+    | node fs subs =>
+      simp only [szParam]
+      split
+      · omega
+      · simp only [wrap16]; omega
+
+/-- … hence a well-formed parameter is always shorter than 2^16 bytes -/
+theorem fits_length_lt (S : Schema) (hS : layoutWF S = true) (fuel : Nat) (ty : String) (v : Val)
+    (hv : fitsParam S fuel ty v = true) : (encParam S fuel ty v).length < 65536 := by
+  rw [← implSize_exact S hS fuel ty v hv]; exact implSize_lt S fuel ty v
+
+/-- the weaker form that is all the encoder itself relies on: equality modulo 2^16 -/
 theorem implSize_mod (S : Schema) (hS : layoutWF S = true) (fuel : Nat) (ty : String) (v : Val)
     (hv : fitsParam S fuel ty v = true) :
-    szParam S fuel ty v = (encParam S fuel ty v).length % 65536 :=
-  (encParam_layout S hS fuel ty v hv).2
+    szParam S fuel ty v = (encParam S fuel ty v).length % 65536 := by
+  have := fits_length_lt S hS fuel ty v hv
+  rw [implSize_exact S hS fuel ty v hv]; omega
 
 /-- without the shape part of `fits` not even that holds: `getHeader` sizes a fixed array by the table, not by the
 slice it is given (EPC96 with an empty EPC: size 13, one byte written) -/
 example : szParam Gen.schema 3 "EPC96" (.node [.bytes []] []) = 13 ∧
     (encParam Gen.schema 3 "EPC96" (.node [.bytes []] [])).length = 1 := by decide +kernel
 
-/-
-The full statement
-  theorem implSize_exact (hv : fitsParam S fuel ty v = true) : szParam S fuel ty v = (encParam S fuel ty v).length
-is FALSE: `fieldsSz` (as `getHeader`) wraps the byte length of every variable-length field to 16 bits on its own, so
-`fitsParam`'s bound on the *computed* size does not bound the bytes written (`.rest` of any length; `.arr elem` with
-`elem ≥ 2` and up to 65535 elements). Counterexample below; the theorem holds for every parameter whose encoding is
-shorter than 2^16 bytes (what the 16-bit TLV length field can express at all).
--/
-/-- **`paramHeader.sz` is the true length** of every well-formed parameter that a TLV length field can describe
-(`_partial`: excluded are values with a variable-length field of ≥ 64 KiB, for which the statement is false) -/
-theorem implSize_exact_partial (S : Schema) (hS : layoutWF S = true) (fuel : Nat) (ty : String) (v : Val)
-    (hv : fitsParam S fuel ty v = true) (hlen : (encParam S fuel ty v).length < 65536) :
-    szParam S fuel ty v = (encParam S fuel ty v).length := by
-  rw [implSize_mod S hS fuel ty v hv]; omega
-
-/-- the counterexample to the unrestricted `implSize_exact`: a Custom parameter with 70000 bytes of data is `fits`,
-is written as 70012 bytes, and `getHeader` declares 4476 -/
-theorem implSize_exact_counterexample (b : Bytes) (hb : b.length = 70000) :
-    fitsParam Gen.schema 2 "Custom" (.node [.num 1, .num 2, .bytes b] []) = true ∧
+/-- values that a 16-bit size cannot describe are not `fits`: a Custom parameter with 70000 bytes of data would be
+written as 70012 bytes while `getHeader` declares 4476 (16-bit wrap of the data length) -/
+theorem oversized_rejected (b : Bytes) (hb : b.length = 70000) :
+    fitsParam Gen.schema 2 "Custom" (.node [.num 1, .num 2, .bytes b] []) = false ∧
     szParam Gen.schema 2 "Custom" (.node [.num 1, .num 2, .bytes b] []) = 4476 ∧
     (encParam Gen.schema 2 "Custom" (.node [.num 1, .num 2, .bytes b] [])).length = 70012 := by
   have hc : Gen.schema.param? "Custom" = some Gen.p_Custom := by decide +kernel
   simp [fitsParam, szParam, encParam, hc, Gen.p_Custom, fitsFields, FKind.fitsVal, fieldsSz, encFields,
-    fitsSlots, szSlots, encSlots, Container.headerSize, Container.isTLV, wrap16, hb, length_putInt, put16]
+    szSlots, encSlots, Container.headerSize, Container.isTLV, wrap16, hb, length_putInt, put16]
 
 example : fitsParam Gen.schema 40 "TagReportData" sampleTag = true ∧
     (encParam Gen.schema 40 "TagReportData" sampleTag).length = 38 := by decide +kernel
